@@ -11,3 +11,7 @@ Check Props.C06.C06_containment :
     /\ (forall b y, b <> a -> actors s b = Some y ->
           exists y', actors s' b = Some y' /\ cview y' = cview y /\ a_mb y' = a_mb y /\ a_timers y' = a_timers y).
 Check Props.C06.C06_dead_is_silent : forall tr, accepts tr = true -> Chk.C03.chk_C03 tr = true.
+Check Props.C06.C06_terminated_actor_stays_contained :
+  forall tr s a x, run init tr = Acc s -> actors s a = Some x -> a_phase x = PhDone ->
+  a_notif x <> NArmed /\ a_exit x <> None /\ a_queue x = [] /\ a_parked x = [] /\ a_rx x = false
+  /\ Forall (fun t => t_aborted t = true) (a_timers x).
